@@ -14,3 +14,4 @@ import JominiModel.Props.C16
 #print axioms Jomini.Props.C16.C16_total_decidable
 #print axioms Jomini.Props.C16.C16_content_array
 #print axioms Jomini.Props.C16.C16_total_all
+#print axioms Jomini.Props.C16.C16_content_tapeOf
